@@ -181,6 +181,76 @@ var mutators = []mutator{
 	}},
 }
 
+// wrapperMutators alter the STRUCTURE of the RawTreeChange wrapper (which fields are present, how
+// often, in which order). They matter most right after the change they were derived from went
+// through the same change builder (decoder state reused across calls).
+var wrapperMutators = []mutator{}
+
+func bodyMut(tc *treeCase, v *parsed, fix bool, label string, body []byte) *rawCh {
+	id := v.id
+	if fix {
+		id, label = realCid(body), label+"/fixid"
+	} else {
+		label += "/keepid"
+	}
+	return &rawCh{id: id, body: body, label: label}
+}
+
+func init() {
+	evil := func(tc *treeCase, v *parsed) []byte {
+		return reTree(v, func(ch *treechangeproto.TreeChange) { ch.ChangesData = append([]byte("evil"), ch.ChangesData...) })
+	}
+	wrapperMutators = []mutator{
+		{"wrap-sig-only", func(tc *treeCase, v *parsed, fix bool) *rawCh {
+			return bodyMut(tc, v, fix, "wrap-sig-only", wrapFields(pbField{0x12, v.sig}))
+		}},
+		{"wrap-empty-payload", func(tc *treeCase, v *parsed, fix bool) *rawCh {
+			return bodyMut(tc, v, fix, "wrap-empty-payload", wrapFields(pbField{0x0a, nil}, pbField{0x12, v.sig}))
+		}},
+		{"wrap-unknown-only", func(tc *treeCase, v *parsed, fix bool) *rawCh {
+			return bodyMut(tc, v, fix, "wrap-unknown-only", wrapFields(pbField{0, []byte{0x18, byte(1 + tc.r.Intn(100))}}))
+		}},
+		{"wrap-payload-only", func(tc *treeCase, v *parsed, fix bool) *rawCh {
+			return bodyMut(tc, v, fix, "wrap-payload-only", wrapFields(pbField{0x0a, v.payload}))
+		}},
+		{"wrap-dup-payload-last-genuine", func(tc *treeCase, v *parsed, fix bool) *rawCh {
+			return bodyMut(tc, v, fix, "wrap-dup-payload-last-genuine", wrapFields(pbField{0x0a, evil(tc, v)}, pbField{0x12, v.sig}, pbField{0x0a, v.payload}))
+		}},
+		{"wrap-dup-payload-last-evil", func(tc *treeCase, v *parsed, fix bool) *rawCh {
+			return bodyMut(tc, v, fix, "wrap-dup-payload-last-evil", wrapFields(pbField{0x0a, v.payload}, pbField{0x12, v.sig}, pbField{0x0a, evil(tc, v)}))
+		}},
+		{"wrap-dup-sig-last-genuine", func(tc *treeCase, v *parsed, fix bool) *rawCh {
+			return bodyMut(tc, v, fix, "wrap-dup-sig-last-genuine", wrapFields(pbField{0x0a, v.payload}, pbField{0x12, flip(tc, v.sig)}, pbField{0x12, v.sig}))
+		}},
+		{"wrap-dup-sig-last-evil", func(tc *treeCase, v *parsed, fix bool) *rawCh {
+			return bodyMut(tc, v, fix, "wrap-dup-sig-last-evil", wrapFields(pbField{0x0a, v.payload}, pbField{0x12, v.sig}, pbField{0x12, flip(tc, v.sig)}))
+		}},
+		{"wrap-unknown-field", func(tc *treeCase, v *parsed, fix bool) *rawCh {
+			return bodyMut(tc, v, fix, "wrap-unknown-field", wrapFields(pbField{0x0a, v.payload}, pbField{0x12, v.sig}, pbField{0, []byte{0x18, 0x01}}))
+		}},
+		{"wrap-reordered", func(tc *treeCase, v *parsed, fix bool) *rawCh {
+			return bodyMut(tc, v, fix, "wrap-reordered", wrapFields(pbField{0x12, v.sig}, pbField{0x0a, v.payload}))
+		}},
+		{"wrap-sig-only-of-other", func(tc *treeCase, v *parsed, fix bool) *rawCh {
+			// a signature-only wrapper replaying the signature of ANOTHER attached change
+			for _, k := range sortedKeys(tc.attached) {
+				if o := tc.attached[k]; k != v.id && len(o.sig) > 0 {
+					return bodyMut(tc, v, fix, "wrap-sig-only-of-other", wrapFields(pbField{0x12, o.sig}))
+				}
+			}
+			return nil
+		}},
+	}
+}
+
+func sortedKeys(m map[string]*parsed) []string {
+	ks := make([]string, 0, len(m))
+	for k := range m {
+		ks = append(ks, k)
+	}
+	return sortedCopy(ks)
+}
+
 func (tc *treeCase) otherParents(v *parsed) []string {
 	var ids []string
 	for k := range tc.attached {
@@ -263,6 +333,7 @@ func (tc *treeCase) genPool(rootP *parsed) ([]*poolCh, []string) {
 	goodHeads := []string{tc.rootId}
 	var goodAll []string = []string{tc.rootId}
 	var pool []*poolCh
+	lastSnap := ""
 	np := 3 + r.Intn(6)
 	for i := 0; i < np; i++ {
 		var prev []string
@@ -292,17 +363,46 @@ func (tc *treeCase) genPool(rootP *parsed) ([]*poolCh, []string) {
 		}
 		author := tc.pickAuthor()
 		snap := tc.rootId
+		var bo buildOpts
+		if tc.exotic {
+			if lastSnap != "" && r.Chance(80) {
+				snap = lastSnap // changes after a snapshot name it
+			}
+			switch x := r.Intn(100); {
+			case x < 12:
+				// a snapshot change: honestly it merges all heads
+				bo.isSnapshot = true
+				if r.Chance(70) {
+					prev = append([]string(nil), goodHeads...)
+				}
+				r.Count("pool.snapshot")
+			case x < 17:
+				prev = nil // no previous ids at all
+				r.Count("pool.no-prev")
+			}
+		}
+		if tc.keyFilter {
+			switch x := r.Intn(100); {
+			case x < 80 && len(tc.keyIds) > 0:
+				bo.readKeyId = tc.keyIds[r.Intn(len(tc.keyIds))]
+			case x < 90:
+				bo.readKeyId = realCid([]byte(fmt.Sprint("nokey", tc.nextTs())))
+			}
+		}
 		if len(goodAll) > 1 && r.Chance(4) {
 			// a writer-signed change whose snapshot id names an ordinary (non-snapshot) change
 			snap = goodAll[1+r.Intn(len(goodAll)-1)]
 			r.Count("pool.foreign-snapshot")
 		}
-		raw := tc.buildChange(author, tc.pickRecord(minIdx, false), prev, snap)
+		raw := tc.buildChange(author, tc.pickRecord(minIdx, false), prev, snap, bo)
 		p := tc.parseRaw(raw.id, raw.body, tc.rootId)
-		p.label = "valid"
+		p.label = raw.label
 		pc := &poolCh{raw: raw, p: p}
-		if ok, _ := tc.authentic(p, goodEnv); ok && snap == tc.rootId {
+		if ok, _ := tc.authentic(p, goodEnv); ok && (snap == tc.rootId || snap == lastSnap) {
 			pc.good = true
+			if bo.isSnapshot {
+				lastSnap = p.id
+			}
 			goodEnv[p.id] = p
 			goodAll = append(goodAll, p.id)
 			var nh []string
@@ -371,6 +471,22 @@ func runCase(h *harnessState, w *world, caseNo int) {
 		r.Fatal("receiver ACL: " + err.Error())
 	}
 	tc.recv = recv
+	switch x := r.Intn(100); {
+	case x < 12:
+		// snapshot changes / changes without previous ids: tree reduction is outside the model
+		tc.exotic = true
+		r.Count("mode.exotic")
+	case x < 24 && tc.recvKeys == w.byName["o"].keys:
+		// the key-filtering validator (validateKeys + FilterChanges): oracle only
+		tc.keyFilter, tc.resync = true, true
+		for k, v := range recv.AclState().Keys() {
+			if v.ReadKey != nil {
+				tc.keyIds = append(tc.keyIds, k)
+			}
+		}
+		tc.keyIds = sortedCopy(tc.keyIds)
+		r.Count("mode.keyfilter")
+	}
 	tc.ask("reset")
 	if got := tc.ask(tc.aclLine()); got != "ok" {
 		r.Fatal("model rejected acl line: " + got)
@@ -402,6 +518,27 @@ func runCase(h *harnessState, w *world, caseNo int) {
 		return
 	}
 
+	if tc.exotic && r.Chance(40) {
+		// directed at the rollback of the rebuild path: a writer stores a change whose snapshot id is a
+		// snapshot that is NOT among its ancestors; later a batch that must go through
+		// rebuildFromStorage is refused (author cannot write) — heads and iteration must not move
+		o := w.byName["o"]
+		cite := w.recs[0].Id
+		if rp := tc.attached[tc.rootId]; rp != nil && !rp.derived && w.recIndex(rp.aclHead, tc.recvK) >= 0 {
+			cite = rp.aclHead
+		}
+		c1 := tc.buildChange(o, cite, []string{tc.rootId}, tc.rootId)
+		sn := tc.buildChange(o, cite, []string{c1.id}, tc.rootId, buildOpts{isSnapshot: true})
+		c2 := tc.buildChange(o, cite, []string{tc.rootId}, sn.id)
+		r.Count("directed.rebuild-rollback")
+		if tc.add([]*rawCh{c1, sn, c2}, "rollback-setup") == "ok" {
+			bad := tc.buildChange(w.byName["z"], cite, []string{sn.id, c2.id}, sn.id)
+			// `other` is attachable in any case and is refused by validation, so the call fails even when
+			// the reload inside rebuildFromStorage has already dropped c2 (and with it `bad`)
+			other := tc.buildChange(w.byName["z"], cite, []string{tc.rootId}, tc.rootId)
+			tc.add([]*rawCh{bad, other}, "rollback-refused")
+		}
+	}
 	pool, _ := tc.genPool(tc.attached[tc.rootId])
 
 	// delivery
@@ -443,11 +580,42 @@ func runCase(h *harnessState, w *world, caseNo int) {
 		}
 		tag := "plain"
 		delivered = append(delivered, chunk...)
-		if r.Chance(60) && len(delivered) > 0 {
+		if r.Chance(30) && len(batch) > 0 {
+			// decoder-state direction: a structural mutant of the wrapper delivered IMMEDIATELY after the
+			// (new, not yet attached) change it was derived from — as the next element of the same batch
+			// or as the next call on the same tree instance
+			var v *poolCh
+			for _, c := range chunk {
+				if c.raw == batch[len(batch)-1] {
+					v = c
+				}
+			}
+			if v != nil && v.p.decOK {
+				ms := wrapperMutators
+				if r.Chance(25) {
+					ms = mutators
+				}
+				if mut := ms[r.Intn(len(ms))].make(tc, v.p, r.Chance(70)); mut != nil {
+					r.Count("mutator." + mut.label)
+					if r.Chance(50) {
+						batch, tag = append(batch, mut), "mut.adjacent-same-batch"
+					} else {
+						deliver(batch, "plain")
+						batch, tag = []*rawCh{mut}, "mut.adjacent-next-call"
+						if r.Chance(30) {
+							batch = append(batch, tc.buildChange(tc.pickAuthor(), tc.pickRecord(0, true), tc.tree.Heads(), tc.rootId))
+						}
+					}
+				}
+			}
+		} else if r.Chance(60) && len(delivered) > 0 {
 			// a mutant of a really-signed change: alone or inside the batch at front / middle / end
 			v := delivered[r.Intn(len(delivered))]
 			if v.p.decOK && !v.p.isRoot {
 				m := mutators[r.Intn(len(mutators))]
+				if r.Chance(30) {
+					m = wrapperMutators[r.Intn(len(wrapperMutators))]
+				}
 				if mut := m.make(tc, v.p, r.Chance(50)); mut != nil {
 					r.Count("mutator." + mut.label)
 					switch x := r.Intn(100); {
@@ -472,6 +640,10 @@ func runCase(h *harnessState, w *world, caseNo int) {
 			tag = "dup"
 		}
 		deliver(batch, tag)
+		if r.Chance(15) && !tc.keyFilter && r.TimeLeft() {
+			// the local path: AddContent by a random account (writers, readers, removed, outsiders)
+			tc.content(tc.pickAuthor(), tc.exotic && r.Chance(30))
+		}
 		if r.Chance(10) {
 			tc.reopen("mid")
 		}
@@ -488,6 +660,29 @@ func runCase(h *harnessState, w *world, caseNo int) {
 			batch = append(batch, c.raw)
 		}
 		deliver(batch, "redeliver-all")
+	}
+	if tc.exotic && r.Chance(40) && r.TimeLeft() {
+		// directed at the rebuild path: a change WITHOUT previous ids (attached vacuously, not reachable
+		// from the root) by an account that may not write, next to a change that forces
+		// rebuildFromStorage (its snapshot id is not in the tree); variants: the unreachable change has a
+		// child in the batch, the forcing change is attachable or not
+		x := tc.pickAuthor()
+		if r.Chance(60) {
+			x = w.byName["z"]
+		}
+		noPrev := tc.buildChange(x, tc.pickRecord(0, true), nil, tc.rootId)
+		fake := realCid([]byte(fmt.Sprint("nosnap", tc.nextTs())))
+		force := tc.buildChange(x, tc.pickRecord(0, true), []string{fake}, fake)
+		batch := []*rawCh{noPrev, force}
+		if r.Chance(50) {
+			child := tc.buildChange(tc.pickAuthor(), tc.pickRecord(0, true), []string{noPrev.id}, tc.rootId)
+			batch = append(batch, child)
+		}
+		if r.Chance(30) {
+			batch[0], batch[1] = batch[1], batch[0]
+		}
+		r.Count("directed.noprev-with-rebuild")
+		deliver(batch, "noprev-rebuild")
 	}
 	// full validation later, possibly after the receiver learnt the rest of the ACL log
 	if r.Chance(60) || readdDirected {
